@@ -344,6 +344,13 @@ def apply_op(obj, ret):
                 setattr(obj, args[1], np.array(TARGETS[args[0]]))
             elif op == "radius":
                 obj.radius = float(obj.radius) * float(F(args[0][0], args[0][1]))
+            elif op == "coreset":
+                core = obj.polyhedron if hasattr(obj, "polyhedron") else obj.polygon
+                p, lam = args[0], F(args[1][0], args[1][1])
+                target = float(getattr(core, p)) * float(lam) ** DEG.get(p, 1)
+                info["target"] = target
+                info["radius_before"] = float(obj.radius)
+                setattr(core, p, target)
             elif op == "radiusbad":
                 obj.radius = -1.0
             elif op == "axis":
@@ -453,6 +460,12 @@ def run_history(job):
                         tags=["readback"])
             except Exception as e:
                 bad("readback", f"reading {ret['args'][0]} after assignment raised {e}", step)
+        elif ret["op"] == "coreset":
+            lam = F(ret["args"][1][0], ret["args"][1][1])
+            if not np.allclose(after_vertices, before_vertices * float(lam), rtol=1e-9, atol=1e-9 * mlen):
+                bad("similarity", f"assigning the core's {ret['args'][0]} did not scale the core uniformly by {lam}", step, tags=["not_similarity"])
+            if float(obj.radius) != info["radius_before"]:
+                bad("radius", "resizing the core changed the rounding radius", step)
         elif ret["op"] == "centroid":
             tgt = np.array(TARGETS[ret["args"][0]])
             if curved:
@@ -513,7 +526,7 @@ def run_history(job):
 
 
 def ret_changes_radius(hist):
-    return any(h["ret"]["op"] in ("radius", "axis") and h["ret"]["exc"] == "none" for h in hist)
+    return any(h["ret"]["op"] in ("radius", "axis", "coreset") and h["ret"]["exc"] == "none" for h in hist)
 
 
 # ---- the state graph ---------------------------------------------------------------------------------------------
